@@ -1,4 +1,5 @@
 import TxdbusModel.Intro.Xml
+import TxdbusModel.Gen.Validators
 /-
 Specification side of property C15, written from the property statement only:
 
@@ -26,6 +27,12 @@ structure SameDefinition (d r : Interface) : Prop where
   properties : ∀ n, (dget Property.name r.properties n).map Property.view
                   = (dget Property.name d.properties n).map Property.view
 
+/-- element-wise `SameDefinition` of two lists of interfaces (same length, same order) -/
+inductive SameDefinitions : List Interface → List Interface → Prop where
+  | nil : SameDefinitions [] []
+  | cons {d r : Interface} {ds rs : List Interface} :
+      SameDefinition d r → SameDefinitions ds rs → SameDefinitions (d :: ds) (r :: rs)
+
 /-- the objects and the cache a parse works on: heap of `DBusInterface` objects, `knownInterfaces`, and the
 list of objects returned so far -/
 structure World where
@@ -45,5 +52,84 @@ def World.parseBlock (skipKnown : Bool) (w : World) (r : Interface) : World :=
 
 def World.parseBlocks (skipKnown : Bool) (w : World) (rs : List Interface) : World :=
   rs.foldl (World.parseBlock skipKnown) w
+
+/-! ## the text / event boundary: characters that can stand unescaped in an attribute value -/
+
+/-- `c` may stand literally inside a double-quoted XML attribute value and is returned unchanged by the
+parser: not `<`, `&`, `"` (which need escaping) and not TAB / LF / CR (which attribute-value normalisation
+turns into spaces). -/
+def attrSafe (c : Char) : Bool :=
+  c != '<' && c != '&' && c != '"' && c != '\t' && c != '\n' && c != '\r'
+
+/-- every attribute value of the event consists of such characters -/
+def Event.attrsSafe : Event → Bool
+  | .start _ a => a.all fun kv => kv.2.all attrSafe
+  | .stop _ => true
+
+/-- membership of a code point in a character class of `Gen/Validators.lean` (inclusive ranges) -/
+def inRanges (rs : List (Nat × Nat)) (n : Nat) : Bool := rs.any fun r => r.1 ≤ n && n ≤ r.2
+
+/-- all characters of `s` are listed in the class -/
+def inClass (rs : List (Nat × Nat)) (s : Str) : Bool := s.all fun c => inRanges rs c.toNat
+
+/-- An interface definition whose names pass the character classes of the validators of marshal.py
+(`if_re` for the interface name, `mbr_re` for member names) and whose signatures are rendered lists of
+complete types. -/
+structure Interface.ValidNames (i : Interface) : Prop where
+  name : inClass Gen.Validators.ifaceAllowed i.name = true
+  methods : ∀ m ∈ i.methods, inClass Gen.Validators.memberAllowed m.name = true ∧
+    ∃ ins outs : List Ty, m.sigIn = renderAll ins ∧ m.sigOut = renderAll outs
+  signals : ∀ s ∈ i.signals, inClass Gen.Validators.memberAllowed s.name = true ∧
+    ∃ ts : List Ty, s.sig = renderAll ts
+  properties : ∀ p ∈ i.properties, inClass Gen.Validators.memberAllowed p.name = true ∧
+    (∃ ts : List Ty, p.sig = renderAll ts) ∧
+    (p.access = kRead ∨ p.access = kWrite ∨ p.access = kReadWrite) ∧ ∃ e : EmitsArg, p.emits = e.toEmits
+
+/-! ## the domain of the statement: interface definitions with signatures from the type grammar -/
+
+/-- An operation of the `DBusInterface` API with its signatures given as lists of complete types
+(`Method(name, ''.join(ins), ''.join(outs))` etc.). -/
+inductive DeclOp where
+  | addMethod (name : Str) (ins outs : List Ty)
+  | addSignal (name : Str) (args : List Ty)
+  | addProperty (name : Str) (ty : List Ty) (readable writeable : Bool) (emitsOnChange : EmitsArg)
+  | delMethod (name : Str)
+  | delSignal (name : Str)
+  | delProperty (name : Str)
+  /-- read `introspectionXml` in between (fills the `_xml` cache) -/
+  | getXml
+
+def DeclOp.toOp : DeclOp → Op
+  | .addMethod n ins outs => .addMethod (Method.new n (renderAll ins) (renderAll outs))
+  | .addSignal n ts => .addSignal (Signal.new n (renderAll ts))
+  | .addProperty n ty r w e => .addProperty (Property.new n (renderAll ty) r w e)
+  | .delMethod n => .delMethod n
+  | .delSignal n => .delSignal n
+  | .delProperty n => .delProperty n
+  | .getXml => .getXml
+
+/-- `DBusInterface(name)` followed by the operations; `none` when one of them raises (only a `del*` of an
+absent member can) -/
+def declare (name : Str) (ops : List DeclOp) : Except Err Cached :=
+  (Cached.new name).applyAll (ops.map DeclOp.toOp)
+
+/-- The standard interfaces `generateIntrospectionXML` appends to every exported object: the definitions
+the text `_intro` of introspection.py describes (generated table `Gen/IntroStd.lean`), read off by parsing
+that text on an empty cache.  At the pinned source: `org.freedesktop.DBus.Introspectable` (`Introspect -> s`),
+`.Peer` (`Ping`), `.ObjectManager` (`GetManagedObjects -> a{oa{sa{sv}}}`).  That `_intro` is exactly what
+`_getXml` would emit for these definitions is the table lemma `std_events`. -/
+def stdIfaces : List Interface :=
+  match getInterfaces [] [] true introEvents with
+  | .ok st => st.result.filterMap id
+  | .error _ => []
+
+/-- the exporter's declaration for an object whose `getInterfaces()` yields `cs`: their definitions followed
+by the standard three -/
+def decl (cs : List Cached) : List Interface := cs.map (·.iface) ++ stdIfaces
+
+/-- every interface of the object was built through the `DBusInterface` API with signatures from the type
+grammar (any sequence of add / delete / read-XML operations) -/
+def Declared (cs : List Cached) : Prop := ∀ c ∈ cs, ∃ name ops, declare name ops = .ok c
+
 
 end Txdbus.Intro
